@@ -26,6 +26,12 @@ import TwProofs.Lemmas.TextArith2
 import TwProofs.Lemmas.TextArith3
 import TwProofs.Lemmas.TextArith4
 import TwProofs.Lemmas.TextTernary
+import TwProofs.Lemmas.TextNeg
+import TwProofs.Lemmas.TextMixed
+import TwProofs.Lemmas.TextCmp
+import TwProofs.Lemmas.TextTernary2
+import TwProofs.Lemmas.TextParenInt
+import TwProofs.Lemmas.TextVars
 
 namespace Tw.C01
 open Tw TwSpec
@@ -571,6 +577,251 @@ example : evaluateStringPure [] (b "{{ ok ? 1 : 2 }}") [(b "ok", .str [])] = .ok
   have hs : ternSrc [32] (b "ok") [32] [32] (b "1") [32] [32] (b "2") [32] = b "{{ ok ? 1 : 2 }}" := by decide
   rw [hs] at this
   rw [this]; rfl
+
+/-- **the prefix minus negates an integer literal, from the source bytes on**: `{{ -d }}` (white space after
+    the braces — `{{--` opens a comment —, any white space between the sign and the number) renders Go's
+    int64 negation of the decimal value. -/
+theorem negated_literal_prints_from_source (custom : List ((VType × Bytes) × Nat)) (data : List (Bytes × GoVal)) (env : Env)
+    (h : envFromMap data = .ok env) (d : Bytes) (hd : isDigits d) (hb : digitsToNat d < 2 ^ 63)
+    (w : Byte) (hw : isWs w = true) (g1 g2 g3 : Bytes) (hg1 : allWs g1) (hg2 : allWs g2) (hg3 : allWs g3) :
+    evaluateStringPure custom (negSrc w g1 g3 d g2) data = .ok (int64ToBytes (-(Int64.ofNat (digitsToNat d)))) := by
+  obtain ⟨prog, t2, t3, hp, hs⟩ := parse_neg_source w g1 g3 d g2 hw hg1 hg2 hg3 hd (by omega)
+  unfold evaluateStringPure envOrFail
+  rw [hp]
+  simp only [h, hs]
+  rw [show evalFuel = (evalFuel - 6) + 1 + 1 + 1 + 1 + 1 + 1 from by decide, evalProg_cons, evalStmt_succ]
+  simp only [stmtBody, calleesAt_expr]
+  simp only [evalExpr, prefixOp, show (([45] : Bytes) == b "-") = true from by decide, if_true, Res.bind_ok]
+  rw [evalProg_nil]
+  simp [resToOut, Val.toStr]
+
+example : evaluateStringPure [] (b "{{ -7 }}") [] = .ok (b "-7") := by
+  have := negated_literal_prints_from_source [] [] [[]] (by rfl) (b "7") (by decide) (by decide) 32 (by decide) [] [32] [] (by decide) (by decide) (by decide)
+  have hs : negSrc 32 [] [] (b "7") [32] = b "{{ -7 }}" := by decide
+  rw [hs] at this
+  rw [this]; rfl
+
+/-- **integer division and modulo by zero fail, from the source bytes on**: `{{ a / z }}` and `{{ a % z }}`
+    with a literal `z` of value zero (`0`, `00`, …) — any white space — do not render: the result is the
+    division-by-zero error. -/
+theorem division_by_zero_fails_from_source (custom : List ((VType × Bytes) × Nat)) (data : List (Bytes × GoVal)) (env : Env)
+    (h : envFromMap data = .ok env) (a z : Bytes) (ha : isDigits a) (hz : isDigits z) (hba : digitsToNat a < 2 ^ 63)
+    (hzero : digitsToNat z = 0) (c : Byte) (ty : TT) (hc : (c = 47 ∧ ty = .DIV) ∨ (c = 37 ∧ ty = .MOD))
+    (g1 g2 g3 g4 : Bytes) (hg1 : allWs g1) (hg2 : allWs g2) (hg3 : allWs g3) (hg4 : allWs g4) :
+    ∃ line, evaluateStringPure custom (arithSrc g1 a g3 c g4 z g2) data = .fail (failOf "ErrDivisionByZero" line [] []) := by
+  have hop : ArithOp c ty PRODUCT := by
+    rcases hc with ⟨rfl, rfl⟩ | ⟨rfl, rfl⟩
+    · exact Or.inl ⟨Or.inr (Or.inl ⟨rfl, rfl⟩), rfl⟩
+    · exact Or.inl ⟨Or.inr (Or.inr ⟨rfl, rfl⟩), rfl⟩
+  obtain ⟨prog, t2, t3, t4, hp, hs⟩ := parse_arith2_source g1 a g3 c ty g4 z g2 hg1 hg2 hg3 hg4 ha hz PRODUCT hop (by omega) (by omega)
+  refine ⟨(Expr.int t2 (Int64.ofNat (digitsToNat a))).line, ?_⟩
+  have hi : ∀ line, intInfix [c] (Int64.ofNat (digitsToNat a)) (Int64.ofNat (digitsToNat z)) line = .err "ErrDivisionByZero" line [] := by
+    intro line
+    rw [hzero]
+    rcases hc with ⟨rfl, _⟩ | ⟨rfl, _⟩ <;> rfl
+  unfold evaluateStringPure envOrFail
+  rw [hp]
+  simp only [h, hs]
+  rw [show evalFuel = (evalFuel - 6) + 1 + 1 + 1 + 1 + 1 + 1 from by decide, evalProg_cons, evalStmt_succ]
+  simp only [stmtBody, calleesAt_expr]
+  simp only [evalExpr, infixOp, Val.type, hi, show (VType.INTEGER != VType.INTEGER) = false from by decide, Bool.false_eq_true, if_false]
+  simp [Res.bind, resToOut]
+
+example : ∃ line, evaluateStringPure [] (b "{{ 7 % 0 }}") [] = .fail (failOf "ErrDivisionByZero" line [] []) := by
+  have := division_by_zero_fails_from_source [] [] [[]] (by rfl) (b "7") (b "0") (by decide) (by decide) (by decide) (by decide) 37 .MOD
+    (Or.inr ⟨rfl, rfl⟩) [32] [32] [32] [32] (by decide) (by decide) (by decide) (by decide)
+  have hs : arithSrc [32] (b "7") [32] 37 [32] (b "0") [32] = b "{{ 7 % 0 }}" := by decide
+  rw [hs] at this
+  exact this
+
+/-- **mixed operand types fail, from the source bytes on**: `{{ d + "text" }}` — an integer literal and a
+    string literal, either quote, any white space — does not render: the result is the type-mismatch error
+    that names `INTEGER`, the operator and `STRING`. -/
+theorem mixed_operands_fail_from_source (custom : List ((VType × Bytes) × Nat)) (data : List (Bytes × GoVal)) (env : Env)
+    (h : envFromMap data = .ok env) (d : Bytes) (hd : isDigits d) (hb : digitsToNat d < 2 ^ 63) (q : Byte) (hq : q = 34 ∨ q = 39)
+    (c : Bytes) (hp : PlainStr q c) (g1 g2 g3 g4 : Bytes) (hg1 : allWs g1) (hg2 : allWs g2) (hg3 : allWs g3) (hg4 : allWs g4) :
+    ∃ line, evaluateStringPure custom (mixedSrc g1 d g3 g4 q c g2) data =
+      .fail (failOf "ErrTypeMismatch" line [b "INTEGER", [43], b "STRING"] []) := by
+  obtain ⟨prog, t2, t3, t4, hpp, hs⟩ := parse_mixed_source g1 d g3 g4 q c g2 hg1 hg2 hg3 hg4 hd hq hp (by omega)
+  refine ⟨(Expr.int t2 (Int64.ofNat (digitsToNat d))).line, ?_⟩
+  unfold evaluateStringPure envOrFail
+  rw [hpp]
+  simp only [h, hs]
+  rw [show evalFuel = (evalFuel - 6) + 1 + 1 + 1 + 1 + 1 + 1 from by decide, evalProg_cons, evalStmt_succ]
+  simp only [stmtBody, calleesAt_expr]
+  simp only [evalExpr, infixOp, Val.type, show (VType.INTEGER != VType.STRING) = true from by decide, if_true]
+  simp [Res.bind, resToOut, Val.typeName, Val.type, VType.name]
+
+example : ∃ line, evaluateStringPure [] (b "{{ 1 + 'a' }}") [] = .fail (failOf "ErrTypeMismatch" line [b "INTEGER", b "+", b "STRING"] []) := by
+  have := mixed_operands_fail_from_source [] [] [[]] (by rfl) (b "1") (by decide) (by decide) 39 (Or.inr rfl) (b "a") (by decide)
+    [32] [32] [32] [32] (by decide) (by decide) (by decide) (by decide)
+  have hs : mixedSrc [32] (b "1") [32] [32] 39 (b "a") [32] = b "{{ 1 + 'a' }}" := by decide
+  rw [hs] at this
+  exact this
+
+/-- a block of text and prints whose pieces are one hole is one print of that name -/
+theorem simple_single_hole (stmts : List Stmt) (k : Bytes) (hsb : simpleBlock stmts = true) (hpc : piecesOf stmts = [.hole k]) :
+    ∃ t t2, stmts = [.expr t (.ident t2 k)] := by
+  cases stmts with
+  | nil => simp [piecesOf] at hpc
+  | cons s r =>
+    cases s with
+    | html _ => simp [piecesOf] at hpc
+    | expr t e =>
+      cases e with
+      | ident t2 n =>
+        simp only [piecesOf, List.cons.injEq, Piece.hole.injEq] at hpc
+        obtain ⟨hn, hr⟩ := hpc
+        simp only [simpleBlock] at hsb
+        cases r with
+        | nil => exact ⟨t, t2, by rw [hn]⟩
+        | cons s2 r2 =>
+          cases s2 with
+          | html _ => simp [piecesOf] at hr
+          | expr t' e' =>
+            cases e' with
+            | ident _ _ => simp [piecesOf] at hr
+            | _ => simp [simpleBlock] at hsb
+          | _ => simp [simpleBlock] at hsb
+      | _ => simp [simpleBlock] at hsb
+    | _ => simp [simpleBlock] at hsb
+
+/-- **an unknown identifier fails, from the source bytes on**: `{{ k }}` — any white space around the name —
+    with a name that is not bound in the data does not render: the result is the identifier-not-found
+    error that names `k`. -/
+theorem unknown_identifier_fails_from_source (custom : List ((VType × Bytes) × Nat)) (data : List (Bytes × GoVal)) (env : Env)
+    (h : envFromMap data = .ok env) (k : Bytes) (hk : isName k) (hget : env.get k = none)
+    (g1 g2 : Bytes) (hg1 : allWs g1) (hg2 : allWs g2) :
+    ∃ line, evaluateStringPure custom ([123, 123] ++ g1 ++ k ++ g2 ++ [125, 125]) data =
+      .fail (failOf "ErrIdentifierNotFound" line [k] []) := by
+  obtain ⟨prog, hp, hsb, hpc⟩ := parse_vitems [.print g1 k g2] ⟨hg1, hg2, hk, trivial⟩
+  have hsrc : vitemsSrc [.print g1 k g2] = [123, 123] ++ g1 ++ k ++ g2 ++ [125, 125] := by simp [vitemsSrc, VItem.src]
+  rw [hsrc] at hp
+  have hpc' : piecesOf prog.stmts = [.hole k] := by simpa [vpieces] using hpc
+  obtain ⟨t, t2, hst⟩ := simple_single_hole prog.stmts k hsb hpc'
+  refine ⟨t2.errorLine, ?_⟩
+  unfold evaluateStringPure envOrFail
+  rw [hp]
+  simp only [h, hst]
+  rw [show evalFuel = (evalFuel - 4) + 1 + 1 + 1 + 1 from by decide, evalProg_cons, evalStmt_succ]
+  simp only [stmtBody, calleesAt_expr]
+  simp only [evalExpr, hget]
+  simp [Res.bind, resToOut]
+
+example : ∃ line, evaluateStringPure [] (b "{{ nosuch }}") [(b "x", .int 1)] = .fail (failOf "ErrIdentifierNotFound" line [b "nosuch"] []) :=
+  unknown_identifier_fails_from_source [] [(b "x", .int 1)] [[(b "x", .int 1)]] (by rfl) (b "nosuch") (by decide) (by rfl) [32] [32] (by decide) (by decide)
+
+/-- **the comparisons `<` and `>` next to the arithmetic operators, from the source bytes on**: in
+    `{{ a op1 b op2 d }}` — three integer literals, any two of `+ - * / % < >`, any white space — a second
+    operator that binds tighter takes `b` (`1 < 2 + 3` is `1 < (2 + 3)`) … -/
+theorem binary_operators_tighter_second_from_source (custom : List ((VType × Bytes) × Nat)) (data : List (Bytes × GoVal)) (env : Env)
+    (h : envFromMap data = .ok env) (a b' d : Bytes) (ha : isDigits a) (hbd : isDigits b') (hdd : isDigits d)
+    (hba : digitsToNat a < 2 ^ 63) (hbb : digitsToNat b' < 2 ^ 63) (hbd' : digitsToNat d < 2 ^ 63)
+    (c1 : Byte) (ty1 : TT) (pr1 : Nat) (c2 : Byte) (ty2 : TT) (pr2 : Nat) (hop1 : Op1 c1 ty1 pr1) (hop2 : Op1 c2 ty2 pr2)
+    (hlt : pr1 < pr2)
+    (g1 g2 g3 g4 g5 g6 : Bytes) (hg1 : allWs g1) (hg2 : allWs g2) (hg3 : allWs g3) (hg4 : allWs g4) (hg5 : allWs g5) (hg6 : allWs g6)
+    (y : Int64) (v : Val)
+    (h1 : ∀ line, intInfix [c2] (Int64.ofNat (digitsToNat b')) (Int64.ofNat (digitsToNat d)) line = .ok (.int y))
+    (h2 : ∀ line, intInfix [c1] (Int64.ofNat (digitsToNat a)) y line = .ok v) :
+    evaluateStringPure custom (arith3Src g1 a g3 c1 g4 b' g5 c2 g6 d g2) data = .ok v.toStr := by
+  obtain ⟨prog, t2, t3, t4, t5, t6, hp, l3, l5, hs⟩ := parse_bin3_source g1 a g3 c1 ty1 pr1 g4 b' g5 c2 ty2 pr2 g6 d g2 hg1 hg2 hg3 hg4 hg5 hg6
+    ha hbd hdd hop1 hop2 (by omega) (by omega) (by omega)
+  unfold evaluateStringPure envOrFail
+  rw [hp]
+  simp only [h, hs, arith3Tree, hlt, if_true, l3, l5]
+  rw [show evalFuel = (evalFuel - 6) + 1 + 1 + 1 + 1 + 1 + 1 from by decide, evalProg_cons, evalStmt_succ]
+  simp only [stmtBody, calleesAt_expr]
+  simp only [evalExpr, infixOp, Val.type, h1, h2, show (VType.INTEGER != VType.INTEGER) = false from by decide, Bool.false_eq_true, if_false, Res.bind_ok]
+  rw [evalProg_nil]
+  simp [resToOut]
+
+/-- … and otherwise the first operator keeps it (`2 + 3 < 4` is `(2 + 3) < 4`, `5 - 2 > 1` is `(5 - 2) > 1`) -/
+theorem binary_operators_group_to_the_left_from_source (custom : List ((VType × Bytes) × Nat)) (data : List (Bytes × GoVal)) (env : Env)
+    (h : envFromMap data = .ok env) (a b' d : Bytes) (ha : isDigits a) (hbd : isDigits b') (hdd : isDigits d)
+    (hba : digitsToNat a < 2 ^ 63) (hbb : digitsToNat b' < 2 ^ 63) (hbd' : digitsToNat d < 2 ^ 63)
+    (c1 : Byte) (ty1 : TT) (pr1 : Nat) (c2 : Byte) (ty2 : TT) (pr2 : Nat) (hop1 : Op1 c1 ty1 pr1) (hop2 : Op1 c2 ty2 pr2)
+    (hge : ¬ pr1 < pr2)
+    (g1 g2 g3 g4 g5 g6 : Bytes) (hg1 : allWs g1) (hg2 : allWs g2) (hg3 : allWs g3) (hg4 : allWs g4) (hg5 : allWs g5) (hg6 : allWs g6)
+    (x : Int64) (v : Val)
+    (h1 : ∀ line, intInfix [c1] (Int64.ofNat (digitsToNat a)) (Int64.ofNat (digitsToNat b')) line = .ok (.int x))
+    (h2 : ∀ line, intInfix [c2] x (Int64.ofNat (digitsToNat d)) line = .ok v) :
+    evaluateStringPure custom (arith3Src g1 a g3 c1 g4 b' g5 c2 g6 d g2) data = .ok v.toStr := by
+  obtain ⟨prog, t2, t3, t4, t5, t6, hp, l3, l5, hs⟩ := parse_bin3_source g1 a g3 c1 ty1 pr1 g4 b' g5 c2 ty2 pr2 g6 d g2 hg1 hg2 hg3 hg4 hg5 hg6
+    ha hbd hdd hop1 hop2 (by omega) (by omega) (by omega)
+  unfold evaluateStringPure envOrFail
+  rw [hp]
+  simp only [h, hs, arith3Tree, hge, if_false, l3, l5]
+  rw [show evalFuel = (evalFuel - 6) + 1 + 1 + 1 + 1 + 1 + 1 from by decide, evalProg_cons, evalStmt_succ]
+  simp only [stmtBody, calleesAt_expr]
+  simp only [evalExpr, infixOp, Val.type, h1, h2, show (VType.INTEGER != VType.INTEGER) = false from by decide, Bool.false_eq_true, if_false, Res.bind_ok]
+  rw [evalProg_nil]
+  simp [resToOut]
+
+example : evaluateStringPure [] (b "{{ 1 < 2 + 3 }}") [] = .ok (b "1") := by
+  have := binary_operators_tighter_second_from_source [] [] [[]] (by rfl) (b "1") (b "2") (b "3") (by decide) (by decide) (by decide)
+    (by decide) (by decide) (by decide) 60 .LTHAN LESS_GREATER 43 .ADD SUM (Op1.of_cmp (Or.inl ⟨rfl, rfl⟩))
+    (Op1.of_arith (Or.inr ⟨Or.inl ⟨rfl, rfl⟩, rfl⟩)) (by decide)
+    [32] [32] [32] [32] [32] [32] (by decide) (by decide) (by decide) (by decide) (by decide) (by decide) 5 (.bool true) (fun _ => by rfl) (fun _ => by rfl)
+  have hs : arith3Src [32] (b "1") [32] 60 [32] (b "2") [32] 43 [32] (b "3") [32] = b "{{ 1 < 2 + 3 }}" := by decide
+  rw [hs] at this
+  rw [this]; rfl
+
+example : evaluateStringPure [] (b "{{ 2 + 3 > 4 }}") [] = .ok (b "1") := by
+  have := binary_operators_group_to_the_left_from_source [] [] [[]] (by rfl) (b "2") (b "3") (b "4") (by decide) (by decide) (by decide)
+    (by decide) (by decide) (by decide) 43 .ADD SUM 62 .GTHAN LESS_GREATER (Op1.of_arith (Or.inr ⟨Or.inl ⟨rfl, rfl⟩, rfl⟩))
+    (Op1.of_cmp (Or.inr ⟨rfl, rfl⟩)) (by decide)
+    [32] [32] [32] [32] [32] [32] (by decide) (by decide) (by decide) (by decide) (by decide) (by decide) 5 (.bool true) (fun _ => by rfl) (fun _ => by rfl)
+  have hs : arith3Src [32] (b "2") [32] 43 [32] (b "3") [32] 62 [32] (b "4") [32] = b "{{ 2 + 3 > 4 }}" := by decide
+  rw [hs] at this
+  rw [this]; rfl
+
+/-- **a ternary nests to the right in its else part, from the source bytes on**: `{{ k ? a : j ? b : d }}` is
+    `k ? a : (j ? b : d)` — `a` when `k` is truthy, otherwise `b` when `j` is truthy, otherwise `d` —, for
+    two names bound in the data, three integer literals and any white space around every token. -/
+theorem ternary_nests_to_the_right_from_source (custom : List ((VType × Bytes) × Nat)) (data : List (Bytes × GoVal)) (env : Env)
+    (h : envFromMap data = .ok env) (k j : Bytes) (hk : isName k) (hj : isName j) (v w : Val) (hgk : env.get k = some v)
+    (hgj : env.get j = some w) (a b' d : Bytes) (ha : isDigits a) (hbd : isDigits b') (hdd : isDigits d)
+    (hba : digitsToNat a < 2 ^ 63) (hbb : digitsToNat b' < 2 ^ 63) (hbd' : digitsToNat d < 2 ^ 63)
+    (g1 g2 g3 g4 g5 g6 g7 g8 g9 g10 : Bytes) (hg1 : allWs g1) (hg2 : allWs g2) (hg3 : allWs g3) (hg4 : allWs g4) (hg5 : allWs g5)
+    (hg6 : allWs g6) (hg7 : allWs g7) (hg8 : allWs g8) (hg9 : allWs g9) (hg10 : allWs g10) :
+    evaluateStringPure custom (tern2Src g1 k g3 g4 a g5 g6 j g7 g8 b' g9 g10 d g2) data =
+      .ok (int64ToBytes (Int64.ofNat (digitsToNat (if isTruthy v then a else if isTruthy w then b' else d)))) := by
+  obtain ⟨prog, t2, t3, t4, t6, t7, t8, t10, hp, hs⟩ := parse_tern2_source g1 k g3 g4 a g5 g6 j g7 g8 b' g9 g10 d g2 hg1 hg2 hg3 hg4 hg5 hg6
+    hg7 hg8 hg9 hg10 hk hj ha hbd hdd (by omega) (by omega) (by omega)
+  unfold evaluateStringPure envOrFail
+  rw [hp]
+  simp only [h, hs]
+  rw [show evalFuel = (evalFuel - 6) + 1 + 1 + 1 + 1 + 1 + 1 from by decide, evalProg_cons, evalStmt_succ]
+  simp only [stmtBody, calleesAt_expr]
+  simp only [evalExpr, hgk, hgj]
+  cases hv : isTruthy v <;> cases hw : isTruthy w <;>
+    (simp only [Bool.false_eq_true, if_false, if_true, Res.bind_ok]; rw [evalProg_nil]; simp [resToOut, Val.toStr])
+
+example : evaluateStringPure [] (b "{{ x ? 1 : y ? 2 : 3 }}") [(b "x", .int 0), (b "y", .str (b "s"))] = .ok (b "2") := by
+  have := ternary_nests_to_the_right_from_source [] [(b "x", .int 0), (b "y", .str (b "s"))] [[(b "x", .int 0), (b "y", .str (b "s"))]] (by rfl)
+    (b "x") (b "y") (by decide) (by decide) (.int 0) (.str (b "s")) (by rfl) (by rfl) (b "1") (b "2") (b "3") (by decide) (by decide) (by decide)
+    (by decide) (by decide) (by decide) [32] [32] [32] [32] [32] [32] [32] [32] [32] [32]
+    (by decide) (by decide) (by decide) (by decide) (by decide) (by decide) (by decide) (by decide) (by decide) (by decide)
+  have hs : tern2Src [32] (b "x") [32] [32] (b "1") [32] [32] (b "y") [32] [32] (b "2") [32] [32] (b "3") [32] = b "{{ x ? 1 : y ? 2 : 3 }}" := by decide
+  rw [hs] at this
+  rw [this]; rfl
+
+/-- **redundant parentheses change nothing, from the source bytes on**: `{{ ( d ) }}` — any white space around
+    the parentheses and the number — renders what `{{ d }}` renders. -/
+theorem redundant_parentheses_change_nothing_from_source (custom : List ((VType × Bytes) × Nat)) (data : List (Bytes × GoVal)) (env : Env)
+    (h : envFromMap data = .ok env) (d : Bytes) (hd : isDigits d) (hb : digitsToNat d < 2 ^ 63)
+    (g1 g2 g3 g4 g5 g6 : Bytes) (hg1 : allWs g1) (hg2 : allWs g2) (hg3 : allWs g3) (hg4 : allWs g4) (hg5 : allWs g5) (hg6 : allWs g6) :
+    evaluateStringPure custom (parenIntSrc g1 g3 d g4 g2) data = evaluateStringPure custom (intSrc g5 d g6) data := by
+  rw [int_literal_prints_from_source custom data env h d hd hb g5 g6 hg5 hg6]
+  obtain ⟨prog, t3, t4, hp, hs⟩ := parse_parenInt_source g1 g3 d g4 g2 hg1 hg2 hg3 hg4 hd (by omega)
+  unfold evaluateStringPure envOrFail
+  rw [hp]
+  simp only [h, hs]
+  rw [show evalFuel = (evalFuel - 4) + 1 + 1 + 1 + 1 from by decide, evalProg_cons, evalStmt_succ]
+  simp only [stmtBody, calleesAt_expr]
+  simp only [evalExpr, Res.bind_ok]
+  rw [evalProg_nil]
+  simp [resToOut, Val.toStr]
 
 example : evaluateStringPure [] (b "{{ 010 }}") [] = .ok (b "10") := by
   have := int_literal_prints_from_source [] [] [[]] (by rfl) (b "010") (by decide) (by decide) [32] [32] (by decide) (by decide)
